@@ -107,8 +107,20 @@ fn cli_leg(ctx: &Ctx, rep: &mut Report) {
     let _ = std::fs::remove_dir_all(&dir);
     std::fs::create_dir_all(&dir).unwrap();
     // one single-file input with >= 50 contigs (sync rounds), one multi-file input
-    let single = c04::gen_case(ctx.seed, 18_900);
-    let multi = c04::gen_case(ctx.seed, 18_901);
+    // small inputs: the dev-profile binary is unoptimised
+    let tiny = |idx: u64, single_file: bool| {
+        let mut c = c04::gen_case(ctx.seed, idx);
+        let mut rng = Rng::new(ctx.seed, 318, idx);
+        let o = crate::gen::genomes::GenOpts {
+            n_samples: 2, n_contigs: if single_file { 28 } else { 3 }, len_lo: 100, len_hi: 220, div_per_mille: 20,
+            iupac: true, n_runs: true, revcomp: true, structural: false, short_contigs: true, k: 15, pansn: single_file, descriptions: false,
+        };
+        c.set = crate::gen::genomes::gen_sample_set(&mut rng, &o);
+        c.single_file = single_file;
+        c
+    };
+    let single = tiny(18_900, true);
+    let multi = tiny(18_901, false);
     let mut prng = Rng::new(ctx.seed, 218, 0);
     let sdir = dir.join("single");
     let mdir = dir.join("multi");
@@ -117,9 +129,13 @@ fn cli_leg(ctx: &Ctx, rep: &mut Report) {
     let mut cases: Vec<(String, Vec<String>)> = vec![];
     let files = |v: &[PathBuf]| v.iter().map(|p| p.to_string_lossy().to_string()).collect::<Vec<_>>();
     for (name, ins) in [("single", files(&sin)), ("multi", files(&min))] {
-        for extra in [vec!["-t", "1"], vec!["-t", "3"], vec!["-t", "2", "--queue-capacity", "1M"], vec!["-t", "2", "--queue-capacity", "100"],
-            vec!["-t", "2", "--queue-capacity", "20000000000G"], vec!["-t", "2", "--queue-capacity", "17179869184G"]] {
-            let mut a = vec!["create".to_string(), "-v".into(), "0".into(), "-k".into(), "15".into(), "-s".into(), "200".into()];
+        let extras: Vec<Vec<&str>> = if name == "single" {
+            vec![vec!["-t", "3"], vec!["-t", "2", "--queue-capacity", "100"], vec!["-t", "2", "--queue-capacity", "17179869184G"]]
+        } else {
+            vec![vec!["-t", "1"], vec!["-t", "2", "--queue-capacity", "1M"], vec!["-t", "2", "--queue-capacity", "20000000000G"]]
+        };
+        for extra in extras {
+            let mut a = vec!["create".to_string(), "-v".into(), "0".into(), "-k".into(), "15".into(), "-s".into(), "60".into()];
             a.extend(extra.iter().map(|s| s.to_string()));
             cases.push((format!("{name} {}", extra.join(" ")), [a, ins.clone()].concat()));
         }
@@ -163,7 +179,7 @@ pub fn run(ctx: &mut Ctx) -> Report {
         "C01-space and C04-space cases (library driving as main.rs) run under the release profile and under the overflow-checked \
          profile; CLI flag cases under both CLI builds; a case is non-trivial when create succeeded in the release profile; distinct by case index",
     );
-    let n = ctx.t(18, 150);
+    let n = ctx.t(10, 150);
     let child_mode = std::env::var("VERIF_C18_CHILD").is_ok();
     let idxs: Vec<u64> = match &ctx.replay {
         Some(r) => vec![r["case"]["index"].as_u64().unwrap_or(0)],
